@@ -367,20 +367,24 @@ func (i *Interpreter) Exec(ctx context.Context, bs match.Bindings, props core.St
 		}
 	}
 
-	// We want to make sure that the following goroutine is
-	// terminated as soon as possible.
+	// The following goroutine interrupts the runtime when the
+	// caller's context ends.  It lives until this method returns
+	// (and not just until RunProgram returns): exporting the
+	// result below runs code, too - say a getter - which must
+	// stop when the context ends and must not be stopped
+	// otherwise.
 	ictx, cancel := context.WithCancel(ctx)
+	defer cancel()
 	go func() {
 		<-ictx.Done()
-		// If this Exec method calls cancel() after RunProgram
-		// returns, then we'll never see this
-		// InterruptedMessage, which is actually the behavior
-		// we want.  In this case, we weren't actually interrupted.
-		o.Interrupt(InterruptedMessage)
+		if ctx.Err() != nil {
+			o.Interrupt(InterruptedMessage)
+		}
+		// Otherwise this method is simply done: nobody was
+		// interrupted.
 	}()
 
 	v, err := RunProgram(o, p)
-	cancel()
 
 	if err != nil {
 		if _, is := err.(*goja.InterruptedError); is {
